@@ -503,13 +503,15 @@ Lemma wrap_resolve along : forall i ty0 a0 m0 cs0 w,
   (forall d x, d < i -> rp_node along d = Ok x -> is_elem x /\ MC x /\ (0 < d -> nonleaf x)) ->
   (0 < i -> nonleaf (Elem ty0 a0 m0 cs0)) ->
   fsize (node_content w) = fsize cs0 + 2 * i /\
+  exists ws : list node, length ws = i /\
   forall po start, po <= fsize cs0 ->
-    exists wp, length wp = i /\ WrapPath wp /\
+    exists wp, List.map (fun e : node * nat * nat => fst (fst e)) wp = ws /\ WrapPath wp /\
       resolve_in s w (po + i) start =
       do r <- resolve_in s (Elem ty0 a0 m0 cs0) po (start + i); Ok (wp ++ fst r, snd r).
 Proof.
   induction i as [|i IH]; intros ty0 a0 m0 cs0 w H Hpath Hnl.
-  - cbn in H. inversion H; subst w. split; [cbn [node_content]; lia|]. intros po start _. exists []. split; [reflexivity|].
+  - cbn in H. inversion H; subst w. split; [cbn [node_content]; lia|]. exists []. split; [reflexivity|].
+    intros po start _. exists []. split; [reflexivity|].
     split; [intros d n i o Hp; destruct d; discriminate|].
     rewrite !Nat.add_0_r. cbn [app]. symmetry. apply bind_eta.
   - cbn [wrap_up] in H. destruct (rp_node along i) as [x|] eqn:Ex; [|discriminate]. cbn [bind] in H.
@@ -517,14 +519,17 @@ Proof.
     cbn [node_copy] in H.
     assert (Hsz : nsize (Elem ty0 a0 m0 cs0) = 2 + fsize cs0).
     { rewrite node_size_elem. specialize (Hnl (Nat.lt_0_succ i)). unfold nonleaf in Hnl. cbn [node_ty] in Hnl. rewrite Hnl. reflexivity. }
-    destruct (IH ty1 a1 m1 [Elem ty0 a0 m0 cs0] w H) as (Hfs & Hres).
+    destruct (IH ty1 a1 m1 [Elem ty0 a0 m0 cs0] w H) as (Hfs & ws & Hlws & Hres).
     { intros d y Hd Hy. apply Hpath; auto. }
     { intros Hi. unfold nonleaf. cbn [node_ty]. apply (Hnlx Hi). }
     cbn [frag_size] in Hfs, Hres. rewrite Hsz in Hfs, Hres.
-    split; [lia|]. intros po start Hpo.
-    destruct (Hres (po + 1) start) as (wp & Hlen & Hwp & Heq); [lia|].
+    split; [lia|].
     set (n' := Elem ty1 a1 m1 [Elem ty0 a0 m0 cs0]) in *.
-    exists (wp ++ [(n', 0, start + i + 0)]). split; [rewrite app_length; cbn [length]; lia|]. split.
+    exists (ws ++ [n']). split; [rewrite app_length; cbn [length]; lia|].
+    intros po start Hpo.
+    destruct (Hres (po + 1) start) as (wp & Hmap & Hwp & Heq); [lia|].
+    assert (Hlen : length wp = i) by (rewrite <- Hlws, <- Hmap, map_length; reflexivity).
+    exists (wp ++ [(n', 0, start + i + 0)]). split; [rewrite map_app, Hmap; reflexivity|]. split.
     + intros d n k o Hp. destruct (Nat.lt_ge_cases d (length wp)) as [Hlt|Hge].
       * rewrite nth_error_app1 in Hp by lia. eapply Hwp; eauto.
       * rewrite nth_error_app2 in Hp by lia. apply nth_single in Hp. destruct Hp as [_ Hp]. inversion Hp; subst.
@@ -586,7 +591,7 @@ Proof.
   destruct (rp_node along extra) as [parent|] eqn:Epar; [|discriminate]. cbn [bind] in H.
   destruct (Hsh _ _ Epar) as ((typ & ap & mp & csp & ->) & Hnlp). cbn [node_copy] in H.
   destruct (wrap_up along extra (Elem typ ap mp content)) as [w|] eqn:Ew; [|discriminate]. cbn [bind] in H.
-  destruct (wrap_resolve along extra typ ap mp content w Ew) as (Hfs & Hres).
+  destruct (wrap_resolve along extra typ ap mp content w Ew) as (Hfs & ws & Hlws & Hres).
   { intros d x Hd Hx. destruct (Hsh _ _ Hx) as [He Hn]. split; [exact He|]. split; [|exact Hn].
     apply V_MC. eapply rp_node_V; eauto. }
   { intros He. apply Hnlp in He. exact He. }
@@ -598,14 +603,16 @@ Proof.
   (* the left position *)
   unfold resolve in Est. destruct (fsize (node_content w) <? os + extra); [discriminate|].
   destruct (resolve_in s w (os + extra) 0) as [[p1 q1]|] eqn:R1; [|discriminate]. cbn [bind fst snd] in Est.
-  destruct (Hres os 0 Hsos) as (wp1 & Hl1 & Hw1 & Heq1). rewrite Heq1 in R1.
+  destruct (Hres os 0 Hsos) as (wp1 & Hm1 & Hw1 & Heq1). rewrite Heq1 in R1.
+  assert (Hl1 : length wp1 = extra) by (rewrite <- Hlws, <- Hm1, map_length; reflexivity).
   destruct (resolve_in s (Elem typ ap mp content) os (0 + extra)) as [[ps qs]|] eqn:Rs; [|discriminate].
   cbn [bind fst snd] in R1. inversion R1; subst p1 q1. clear R1 Heq1.
   (* the right position *)
   unfold resolve in Een. destruct (fsize (node_content w) <? fsize (node_content w) - oe - extra); [discriminate|].
   replace (fsize (node_content w) - oe - extra) with (fsize content - oe + extra) in Een by lia.
   destruct (resolve_in s w (fsize content - oe + extra) 0) as [[p2 q2]|] eqn:R2; [|discriminate]. cbn [bind fst snd] in Een.
-  destruct (Hres (fsize content - oe) 0 ltac:(lia)) as (wp2 & Hl2 & Hw2 & Heq2). rewrite Heq2 in R2.
+  destruct (Hres (fsize content - oe) 0 ltac:(lia)) as (wp2 & Hm2 & Hw2 & Heq2). rewrite Heq2 in R2.
+  assert (Hl2 : length wp2 = extra) by (rewrite <- Hlws, <- Hm2, map_length; reflexivity).
   destruct (resolve_in s (Elem typ ap mp content) (fsize content - oe) (0 + extra)) as [[pe qe]|] eqn:Re; [|discriminate].
   cbn [bind fst snd] in R2. inversion R2; subst p2 q2. clear R2 Heq2.
   assert (Hmcp : MC (Elem typ ap mp content)).
